@@ -78,7 +78,7 @@ def c17(ctx, rep):
     if len(a) != len(b):
         rep.violation("decode sweep length mismatch", {"go": len(a), "model": len(b)}, found=False)
     # (b) run-time correspondence with invalid bytes at every position class
-    run_corr(ctx, rep, [("utf8", 300, 6000)], fields=["out", "val", "errs", "trace"], oracle=c17_oracle)
+    run_corr(ctx, rep, [("utf8", 300, 6000)], fields=["out", "val", "errs", "trace"], oracle=c17_oracle, emitted=(24, 300))
 
 # ------------------------------------------------------------------ known findings (run-time)
 def replay_runtime_known(ctx, k):
@@ -118,7 +118,7 @@ ALL_FIELDS = ["out", "val", "errs", "cnt", "maxfail", "gs", "trace"]
 @prop("C01", replay_known=replay_runtime_known)
 def c01(ctx, rep):
     run_corr(ctx, rep, [("c01", 1500, 20000), ("class", 300, 4000), ("enum", 400, 0)], fields=["out", "val", "errs"],
-             ref_fields=["out", "val"], known_quirks=known_quirks_for("C01"))
+             ref_fields=["out", "val"], known_quirks=known_quirks_for("C01"), emitted=(48, 600))
 
 # ------------------------------------------------------------------ C02
 def c02_oracle(case_line, impl, model):
@@ -146,13 +146,13 @@ def c02_oracle(case_line, impl, model):
 @prop("C02", replay_known=replay_runtime_known)
 def c02(ctx, rep):
     run_corr(ctx, rep, [("c02", 500, 12000)], fields=["out", "val", "trace"],
-             ref_fields=["out", "val", "trace"], oracle=c02_oracle, known_quirks=known_quirks_for("C02"))
+             ref_fields=["out", "val", "trace"], oracle=c02_oracle, known_quirks=known_quirks_for("C02"), emitted=(24, 300))
 
 # ------------------------------------------------------------------ C05
 @prop("C05", replay_known=replay_runtime_known)
 def c05(ctx, rep):
     run_corr(ctx, rep, [("c05", 1200, 20000)], fields=["out", "val", "trace", "gs", "st"],
-             ref_fields=["out", "val", "trace_noctx", "gs"], known_quirks=known_quirks_for("C05"))
+             ref_fields=["out", "val", "trace_noctx", "gs"], known_quirks=known_quirks_for("C05"), emitted=(24, 300))
 
 # ------------------------------------------------------------------ C11
 def c11_oracle(case_line, impl, model):
@@ -176,19 +176,19 @@ def c11_oracle(case_line, impl, model):
 @prop("C11", replay_known=replay_runtime_known)
 def c11(ctx, rep):
     run_corr(ctx, rep, [("c11", 500, 12000), ("c08", 250, 5000)], fields=["out", "val", "errs"],
-             ref_fields=["out", "val", "errs"], oracle=c11_oracle, known_quirks=known_quirks_for("C11"))
+             ref_fields=["out", "val", "errs"], oracle=c11_oracle, known_quirks=known_quirks_for("C11"), emitted=(24, 300))
 
 # ------------------------------------------------------------------ C12
 @prop("C12", replay_known=replay_runtime_known)
 def c12(ctx, rep):
     run_corr(ctx, rep, [("c12", 600, 15000)], fields=["out", "errs", "maxfail"],
-             ref_fields=["out", "errs", "maxfail"], known_quirks=known_quirks_for("C12"))
+             ref_fields=["out", "errs", "maxfail"], known_quirks=known_quirks_for("C12"), emitted=(24, 300))
 
 # ------------------------------------------------------------------ C14
 @prop("C14", replay_known=replay_runtime_known)
 def c14(ctx, rep):
     run_corr(ctx, rep, [("c14", 500, 12000)], fields=["out", "val", "errs", "trace"],
-             ref_fields=["out", "val", "errs", "trace_noctx"], known_quirks=known_quirks_for("C14"))
+             ref_fields=["out", "val", "errs", "trace_noctx"], known_quirks=known_quirks_for("C14"), emitted=(24, 300))
 
 # ------------------------------------------------------------------ C16
 MAXEXPR_MSG = "max number of expressions parsed"
@@ -220,7 +220,7 @@ def c16_derive(lines):
 def c16(ctx, rep):
     run_corr(ctx, rep, [("c16", 500, 12000)], fields=["out", "val", "errs", "cnt"],
              ref_fields=["out", "val", "errs", "cnt"], oracle=c16_oracle, known_quirks=known_quirks_for("C16"),
-             classify=c16_classify)
+             classify=c16_classify, emitted=(24, 300))
     # a budget that is not exhausted must not change the result: re-run those cases unbounded
     unb = []
     for cid, l in rep.case_lines.items():
@@ -278,7 +278,7 @@ def c10_derive(lines):
 @prop("C10", replay_known=replay_runtime_known)
 def c10(ctx, rep):
     run_corr(ctx, rep, [("c10", 400, 10000), ("c08", 250, 5000)], fields=["out", "val", "errs", "gs", "st", "cnt"],
-             ref_fields=["out", "val", "errs"], known_quirks=known_quirks_for("C10"), derive=c10_derive)
+             ref_fields=["out", "val", "errs"], known_quirks=known_quirks_for("C10"), derive=c10_derive, emitted=(24, 300))
     from .props import same_on
     pairs = skipped = 0
     for cid, l in rep.case_lines.items():
@@ -366,7 +366,7 @@ def c08(ctx, rep):
         return None
     run_corr(ctx, rep, [("c08", 300, 8000)], fields=["out", "val", "errs", "gs", "st", "cnt"],
              ref_fields=["out", "val", "errs"], scope=lambda l: True, spec_flag="-lrspec", ref_skip=c08_skip,
-             known_quirks=known_quirks_for("C08"), derive=c08_derive, classify=classify)
+             known_quirks=known_quirks_for("C08"), derive=c08_derive, classify=classify, emitted=(24, 300))
     # Memoize on/off pairs give the same value (error lists: see the known finding)
     pairs = 0
     for cid, l in rep.case_lines.items():
@@ -393,7 +393,9 @@ def set_opt(line, idx, val, tag):
 
 def c06_derive(lines):
     out = []
-    for l in lines:
+    probes = [l for l in open(os.path.join(C.VERIF, "corpus", "c06_probes.txt")).read().splitlines() if l.strip()]
+    out.extend(probes)
+    for l in lines + probes:
         for idx, tag in ((0, "m"), (1, "d"), (2, "s")):
             for val in ("0", "1"):
                 t = set_opt(l, idx, val, tag + val)
@@ -426,6 +428,16 @@ def c06_oracle(line, impl, model):
     bound = n_exprs(line) * (len(corr.case_input(line)) + 1)
     if int(impl["cnt"]) > bound:
         return "Memoize(true): %s expressions evaluated, more than %d expressions x (%d + 1) positions" % (impl["cnt"], n_exprs(line), len(corr.case_input(line)))
+    # an action node is evaluated at most once per offset, so its code block runs at most once per start position
+    if not t[1]:
+        seen = set()
+        for ev in (impl.get("trace") or "").split(";"):
+            if ev.startswith("A"):
+                parts = ev.split(":")
+                key = (parts[0], next((q for q in parts if q.startswith("p=")), ""))
+                if key in seen:
+                    return "Memoize(true): the action block %s ran twice at start position %s: its expression was evaluated twice at one offset" % (parts[0][1:], key[1][2:])
+                seen.add(key)
     return None
 
 @prop("C06", replay_known=replay_runtime_known)
@@ -434,11 +446,12 @@ def c06(ctx, rep):
     # grammars that are not well-formed run under an expression budget (the generator's watchdog): budgets are
     # C16's business and Memoize changes how they are counted, so those cases are outside this property
     nobudget = lambda l: corr.case_opts(l)["maxexpr"] == 0
-    # C06 speaks of success/failure, value and code-block errors: the text of the final "no match found" report
-    # (farthest failure, C12) legitimately depends on which terminals were actually tried, and a memo hit tries none
+    # C06 states "the same success or failure, value and code-block errors": the text of the final "no match found,
+    # expected: .." report is not part of the claim (a memo hit replays no failAt bookkeeping: S <- !A "x" / A ; A <- "a"
+    # on "b" lists "a" or "x" by default and only "x" with Memoize(true); model switch q_memo_expected, DESIGN.md A.4)
     run_corr(ctx, rep, [("c06", 250, 5000)], fields=["out", "val", "errs", "cnt"],
              ref_fields=["out", "val", "cberrs"], scope=nobudget, known_quirks=known_quirks_for("C06"),
-             derive=c06_derive, oracle=lambda l, i, m: c06_oracle(l, i, m) if nobudget(l) else None)
+             derive=c06_derive, oracle=lambda l, i, m: c06_oracle(l, i, m) if nobudget(l) else None, emitted=(24, 300))
     # every option set against the default options, on the real parsers
     pairs = 0
     known = known_quirks_for("C06")
@@ -462,7 +475,7 @@ def c06(ctx, rep):
             continue
         pairs += 1
         if not same_on(["out", "val", "cberrs"], a, b):
-            # differences already attributed to the memo-label finding through the specification are not repeated
+            # differences already attributed to a memo finding through the specification are not repeated
             if cid in getattr(rep, "attributed_cases", set()):
                 continue
             rep.violation("an option set changes the result: %s" % {k: v for k, v in corr.case_opts(l).items() if k in ("memo", "debug", "stats")},
